@@ -1,5 +1,5 @@
 HOOK_COMMITS = ['261214f', '7473a7b', 'b193b9c', '236d7ec', 'e2efb1f', '03a69db', 'cfb1ec0']
-FIX_COMMITS = ['6ab1b61', 'aa5da3f', '23893cd', 'b2f43bf', '6457cb8', '9d7243e', '99e9484', '2173ac6', '62af4cc', '26a6dc2', '11fc74a', '0f6d027', 'e5a31d6', '90ab653', 'c33be62', '33896dd', '86f9aa3', '5aea712', '7455c3e', '08de576', '70dc05f']
+FIX_COMMITS = ['6ab1b61', 'aa5da3f', '23893cd', 'b2f43bf', '6457cb8', '9d7243e', '99e9484', '2173ac6', '62af4cc', '26a6dc2', '11fc74a', '0f6d027', 'e5a31d6', '90ab653', 'c33be62', '33896dd', '86f9aa3', '5aea712', '7455c3e', '08de576', '70dc05f', 'a801988']
 NOTES = ('Every check: proof gate (full coq build, forbidden-construct scan, Print Assumptions allow-list = empty) '
          '+ correspondence (extracted model vs real code on corpus + generated cases) + model-free oracle; '
          'known findings in known_findings.json. See DESIGN.md.')
@@ -233,3 +233,41 @@ CLAIMED['C11']['text'] += (' UNDER ERRORS (Proofs/SendErrorsProofs.v): for every
     'GLUE (Proofs/IssuedProbes.v): every probe the strategy issues lies in the quantifier domain of the dispatch theorems, and its sequence / identifier / ports are the fields read back from the wire per cell.')
 CLAIMED['C13']['text'] += (' Extra (Proofs/ChecksumExtra.v): the Paris datagram over IPv6 (RFC 8200 pseudo-header, payload octets chosen so that checksum = sequence) verifies and the choice is unique; '
     'the word skipped by the codecs is the checksum word for every data string; Paris over IPv4 stated with RFC 768 pseudo-header octets.')
+
+# ---- second round of theorem growth (Proofs/SnapshotTotals.v, NonInterference.v, PrevRound.v, ExtCodecProofs.v, ExtModelsAgree.v,
+#      ExtEndToEnd.v, RecvOutcomes.v, ViewsExtra.v, FlowHistory.v, HopWindow.v, TargetEnd.v, Conc/TracerRich.v + Tracer*.v)
+CLAIMED['C01']['text'] += (' SNAPSHOT STEP (Proofs/SnapshotTotals.v): for every run the State fed with the published rounds exists and hop t of the default flow has total_sent = probes of ttl t handed to the '
+    'network in published rounds and not abandoned as Skipped, total_failed = transient send failures at t, total_recv = genuine responses (first per probe) delivered before the publish, total_time = the sum of '
+    'their non-negative round-trip times, address multiset = their hosts with multiplicities; sums over all hops: nothing invented, dropped or duplicated; per-flow versions through update_from_round; the round '
+    'in progress is never visible. END TO END (mode e2e): the real Builder -> Tracer -> Strategy -> Channel chain over a simulated path, ground-truth oracle per hop.')
+CLAIMED['C03']['text'] += (' WHOLE RUNS (Proofs/NonInterference.v): a non-genuine delivery returns literally the timeout result (no field differs); the four classes of non-genuine deliveries are complete; two histories '
+    'that differ only in non-genuine deliveries have identical sends, published rounds, outcome, final tracer state and snapshot; scrubbing every non-genuine response to a timeout gives the same run (the harness '
+    'oracle, now a theorem); responses with another tracer\'s non-zero identifier never change a run (composed with the identifier assignment of Tui/TraceId.v); for ICMP/UDP a response naming a sequence of the round '
+    'published last is never genuine. Boundary shown by witness (c03_any_other_identifier_refuted): identifier 0 in a response is accepted by an ICMP tracer too - the property excludes it ("non-zero").')
+CLAIMED['C14']['text'] += (' ENCODER AND ROUND TRIP (Packet/ExtEncode.v, Proofs/ExtCodecProofs.v, ExtEndToEnd.v): parse (encode s) = s for every well-formed structure (any objects, MPLS stacks, unknown classes, payloads), '
+    'the encoder emits a valid RFC 1071 checksum; through whole ICMPv4 / ICMPv6 Time Exceeded / Destination Unreachable messages in compliant and legacy placement the quoted datagram comes back with less than one word of padding '
+    'which belongs to neither piece; closed form of the splitter for every length octet; the object and label iterators as deterministic relations on strictly decreasing suffixes, at most (length-4)/4 objects, never outside the buffer; '
+    'malformed input: wrong version -> no extensions, short header -> error value, a malformed object ends the iteration keeping what came before; the receive-path decoder (Net/RecvCommon.v) equals the packet codec on every octet string. '
+    'Shown by witness: the checksum of the extension header is not verified; a plain message with length octet 0 quoting more than 131 octets has its tail read as a (version-checked) extension.')
+CLAIMED['C04']['text'] += (' OUTCOMES (Proofs/RecvOutcomes.v, ViewsExtra.v): recv4 / recv6 / recv_probe return a value or one of the named error values for every datagram; oversized datagrams are handled as their first 1024 octets; '
+    'hostile nested headers are total in both families; every accessor used on the receive path is in bounds given the new_view check before it (and that check is needed); the TCP socket array stays within 256 entries over '
+    'any history of dispatch / settle / poll events without fault.')
+CLAIMED['C10']['text'] += (' ENDS AT THE TARGET (Proofs/HopWindow.v, TargetEnd.v): never-probed ttls inside the window are present as default hops; hops() and target_hop() characterised by position; is_target / is_in_round characterised; '
+    'the window never shrinks; over whole runs every published path length is a closed form of the log before it - the smallest ttl the target answered at in the round, else the carried distance - a silent network gives an empty table, '
+    'rounds are contiguous from first_ttl and never report a length beyond the farthest ttl probed; end to end every hop of the table built from any run carries its own ttl from first_ttl to the greatest reported length and the target hop is the one tagged with the last length. '
+    'Refuted with witnesses (observations, not violations of the statement): per-flow tables can designate a never-probed hop when a round cut short over a new path carries the old length; is_target for never-probed hops when the last length is 0 (not reachable through the tracer).')
+CLAIMED['C15']['text'] += (' OVER ALL HISTORIES (Proofs/FlowHistory.v): the registry only grows, identifiers are never reassigned, renumbered or removed; the same flow always gets the same identifier; an entry stays consistent with every round attributed to it; '
+    'different identifiers always hold conflicting entries; at most max_flows entries, the behaviour of a round at a full registry stated exactly; per-flow state = fold of exactly the attributed rounds, flow 0 = all rounds; refinement to an abstract first-fit registry; '
+    'the attributed flow agrees position by position with the addresses of the round. Defect repaired (F20): a probe whose send failed had no position in the flow, later hops moved up by one and a round over a known path got a new identifier (c15_failed_probe_keeps_position).')
+CLAIMED['C20']['text'] = CLAIMED['C20']['text'].replace('PARTIAL. Coq theorem', 'PARTIAL. Coq theorems (33)') + (' Added (Conc/TracerRich.v simulated by Conc/Tracer.v, Proofs/Tracer*.v): snapshots in clone order never go back; freshness after release; a clear hides every older round; '
+    'all sub-updates of a round or none, flow 0 and the round\'s own flow both or neither; error hand-off: a snapshot cloned after handle_error shows the error with all rounds whole, and - after the repair F19 - keeps showing it across clears; '
+    'deadlock freedom incl. readers deferring to parked writers (both parking_lot admission behaviours); two negative variants (lock released between sub-updates; clone-modify-store) admit torn snapshots. '
+    'Harness: tracing spans of the publishing thread as extra scheduling points (no source change), steady multi-flow history with a clear at every point.')
+CLAIMED['C09']['text'] += ' Defect repaired (F19): Tracer::clear wiped the error of an ended run; run / startup lines now clear after the failed run and require the error to stay visible.'
+CLAIMED['C16']['text'] += (' The value in force in the frontend: every field of the TuiConfig built by the real make_tui_config (hook) is compared with the effective configuration on each case. '
+    'END TO END (mode e2e): accepted configurations of every protocol / strategy / port direction / family run N rounds through the real Channel over a simulated path, incl. long silent runs that walk the sequence space.')
+CLAIMED['C17']['text'] += ' Every second case runs with a generated, well-formed MaxMind DB behind the real reader and lookup cache (map, hop details, GeoIP columns).'
+CLAIMED['C18']['text'] += ' GeoIP data is shared by groups of addresses (a hidden and a visible hop at one location); structural rule for the map info panel; every second case looks its GeoIP data up in a generated MaxMind DB through the real reader.'
+CLAIMED['C19']['text'] += ' END TO END (mode e2e): unrewritten simulated paths never show NAT, incl. configurations whose UDP checksum computes to zero.'
+CLAIMED['C11']['text'] += ' Probe SEQUENCES on one channel (c11seq): every probe of a sequence with equal / alternating / ascending ttls comes out as from a fresh channel (model send_many).'
+CLAIMED['C13']['text'] += ' The checksums on the wire: the dispatched datagrams of mode c11 are verified by an independent RFC 1071 summation under this property too.'
